@@ -14,7 +14,9 @@ func c20Cong[V univers.Version[V], VR univers.VersionRange[V]](e univers.Ecosyst
 	vv.Assume(ea == nil)
 	vb, eb := e.NewVersion(b)
 	vv.Assume(eb == nil)
+	vv.Reached()
 	vv.Assume(!c01AlpmMixedPkgrel(e.Name(), a, b, b))
+	vv.Assume(!vv.Known("KF-C01-alpm-direct-suffix-heuristic", alpmGlued(e.Name(), r, a, b)))
 	vv.Assert(congOK(va.Compare(vb), vr.Contains(va), vr.Contains(vb)), "C20: two versions that compare equal are not both in / both out of the range")
 }
 
@@ -33,6 +35,13 @@ func c20Convex[V univers.Version[V], VR univers.VersionRange[V]](e univers.Ecosy
 	vv.Assume(eb == nil)
 	vc, ec := e.NewVersion(c)
 	vv.Assume(ec == nil)
+	vv.Reached()
 	vv.Assume(!c01AlpmMixedPkgrel(e.Name(), a, b, c))
+	vv.Assume(!vv.Known("KF-C01-alpm-direct-suffix-heuristic", alpmGlued(e.Name(), r, a, b, c)))
+	vv.Assume(!vv.Known("KF-C20-composer-caret-tilde-stability", composerShorthand(e.Name(), r)))
 	vv.Assert(convexOK(va.Compare(vb), vb.Compare(vc), vr.Contains(va), vr.Contains(vb), vr.Contains(vc)), "C20: conjunctive range is not convex")
+}
+
+func composerShorthand(eco, r string) bool {
+	return eco == "composer" && len(r) > 0 && (r[0] == '^' || r[0] == '~')
 }
